@@ -20,9 +20,9 @@
 package main
 
 import (
-	"context"
-	"errors"
 	"fmt"
+	"os"
+	"runtime/pprof"
 	"math/big"
 
 	"github.com/ethereum/go-ethereum/common"
@@ -30,7 +30,6 @@ import (
 	"github.com/ethereum/go-ethereum/core/state"
 	"github.com/ethereum/go-ethereum/core/types"
 	"github.com/ethereum/go-ethereum/core/vm"
-	"github.com/ethereum/go-ethereum/eth/gasestimator"
 	"github.com/ethereum/go-ethereum/params"
 	"github.com/holiman/uint256"
 
@@ -46,7 +45,35 @@ func run(r *vrt.Run) {
 	if r.Race() {
 		n /= 8
 	}
-	vrt.Par(n, 0, func(i int) { estimateCase(r, i) })
+	// cap-interaction family (capgrid.go): nc cheap-to-execute cases walking the grid cell by
+	// cell, nh cases with a countdown-loop callee (tens of milliseconds per execution at the
+	// 2^24 scale: few, first, so that they do not form the tail of the run)
+	nc, nh := r.N(960, 48000), r.N(24, 1200)
+	if r.Race() {
+		nc, nh = nc/8, nh/4
+	}
+	offset := r.Rand("capgrid-offset", 0).Intn(capCells)
+	if pf := os.Getenv("C37_DEV_PROF"); pf != "" {
+		f, _ := os.Create(pf)
+		pprof.StartCPUProfile(f)
+		defer pprof.StopCPUProfile()
+		nc = 200
+	}
+	if f := os.Getenv("C37_DEV_FAMILY"); f == "cap" {
+		n = 0
+	} else if f == "heavy" {
+		n, nc = 0, 0
+	}
+	vrt.Par(nh+nc+n, 0, func(i int) {
+		switch {
+		case i < nh:
+			capCase(r, i, true, offset)
+		case i < nh+nc:
+			capCase(r, i-nh, false, offset)
+		default:
+			estimateCase(r, i-nh-nc)
+		}
+	})
 	r.Require("estimates_ok", int64(n)/4)
 	r.Require("minimality_checked", int64(n)/10)
 	r.Require("expected_errors", int64(n)/20)
@@ -254,143 +281,37 @@ func estimateCase(r *vrt.Run, idx int) {
 		}
 	}
 
-	// ---- allowance cap by the stated rules ---------------------------------------------------
-	capBy := "block"
-	allow := e.header.GasLimit
-	if call.GasLimit >= params.TxGas {
-		allow, capBy = call.GasLimit, "call"
-	}
-	if fork == execenv.Osaka && allow > params.MaxTxGas {
-		allow, capBy = params.MaxTxGas, "maxtxgas"
-	}
-	feeCap := call.GasFeeCap
-	var balanceAllow *uint256.Int
-	expectFundsError := false
-	if feeCap.BitLen() != 0 {
-		bal := e.st.GetBalance(from).Clone()
-		if value.Cmp(bal) >= 0 {
-			expectFundsError = true
-		} else {
-			bal.Sub(bal, value)
-			balanceAllow = new(uint256.Int).Div(bal, feeCap)
-			if balanceAllow.IsUint64() && allow > balanceAllow.Uint64() {
-				allow, capBy = balanceAllow.Uint64(), "balance"
-			}
-		}
-	}
-	if gasCap != 0 && allow > gasCap {
-		allow, capBy = gasCap, "gascap"
-	}
-	capOK := false
-	var capErr error
-	if !expectFundsError {
-		var res *core.ExecutionResult
-		capOK, res, capErr = e.execAt(call, allow)
-		_ = res
-	}
-
-	// ---- the estimator -----------------------------------------------------------------------
-	msg := *call
-	eopts := &gasestimator.Options{Config: chain.Cfg, Chain: chain, Header: e.header, State: e.st, ErrorRatio: errorRatio}
-	g, _, estErr := gasestimator.Estimate(context.Background(), &msg, eopts, gasCap)
-
 	toStr := "create"
 	if to != nil {
 		toStr = to.Hex()
 	}
 	witness := map[string]any{"index": idx, "fork": fork.String(), "kind": kind, "from": from.Hex(), "to": toStr, "value": value.String(), "data": vrt.Hex(data),
 		"gas_price": call.GasPrice.String(), "fee_cap": call.GasFeeCap.String(), "call_gas_limit": call.GasLimit, "gas_cap": gasCap, "block_gas_limit": e.header.GasLimit,
-		"balance": e.st.GetBalance(from).String(), "error_ratio": errorRatio, "monotone": monotone, "allowance_cap": allow, "cap_by": capBy, "succeeds_at_cap": capOK,
-		"estimate": g, "estimate_error": fmt.Sprint(estErr), "harness_min_gas_rich_sender": need, "target_code": codeOf(alloc, to)}
-	if msg.GasLimit != call.GasLimit {
-		r.Violation("call-mutated", fmt.Sprintf("Estimate left call.GasLimit = %d (was %d)", msg.GasLimit, call.GasLimit), witness)
-	}
-	sig := fmt.Sprintf("%s/%s/mono%v/ratio%v/cap-%s", fork, kind, monotone, errorRatio > 0, capBy)
-	// The estimator has one documented shortcut: a message without data to an account without
-	// code is probed at params.TxGas (21000) and that figure is returned if it succeeds.
-	// Refutations that stem from it get their own fingerprints (one root cause).
-	shortcut := estErr == nil && len(data) == 0 && to != nil && e.st.GetCodeSize(*to) == 0 && g == params.TxGas
-	switch {
-	case estErr != nil:
-		if capOK {
-			r.Violation("error-though-cap-succeeds", fmt.Sprintf("execution with the allowance cap %d (%s) succeeds but Estimate failed: %v", allow, capBy, estErr), witness)
-		}
-		r.Count("expected_errors", 1)
-		cls := "other"
-		switch {
-		case errors.Is(estErr, vm.ErrExecutionReverted):
-			cls = "revert"
-		case errors.Is(estErr, core.ErrInsufficientFunds), errors.Is(estErr, core.ErrInsufficientFundsForTransfer):
-			cls = "funds"
-		case capErr != nil:
-			cls = "core"
-		}
-		r.Eval(sig + "/error-" + cls)
+		"balance": e.st.GetBalance(from).String(), "error_ratio": errorRatio, "monotone": monotone, "harness_min_gas_rich_sender": need, "target_code": codeOf(alloc, to)}
+	v := judge(r, e, call, judgeParams{fork: fork, gasCap: gasCap, errorRatio: errorRatio, monotone: monotone, need: need, realTx: priced, witness: witness})
+
+	sig := fmt.Sprintf("%s/%s/mono%v/ratio%v/cap-%s", fork, kind, monotone, errorRatio > 0, v.capBy)
+	if v.estErr != nil {
+		r.Eval(sig + "/error-" + v.errClass)
 		return
-	case !capOK:
-		// E: the estimator answered although execution at the cap fails. The only documented
-		// shortcut is the plain transfer probed at 21000.
-		if shortcut && allow < params.TxGas {
-			r.Violation("transfer-shortcut:exceeds-allowance", fmt.Sprintf("plain transfer: the allowance cap is %d (%s), execution with it fails (%v), but Estimate returned params.TxGas = %d", allow, capBy, capErr, g), witness)
-		} else {
-			r.Violation("estimate-though-cap-fails", fmt.Sprintf("execution with the allowance cap %d (%s) fails (%v) but Estimate returned %d", allow, capBy, capErr, g), witness)
-		}
 	}
-	r.Count("estimates_ok", 1)
 	if kind == "create" {
 		r.Count("create_estimates", 1)
 	}
-	// S
-	ok, res, err := e.execAt(call, g)
-	if !ok {
-		why := fmt.Sprint(err)
-		if res != nil {
-			why = fmt.Sprint(res.Err)
-		}
-		r.Violation("estimate-insufficient", fmt.Sprintf("execution with the estimated gas %d fails: %s", g, why), witness)
-	}
-	// C
-	if gasCap != 0 && g > gasCap {
-		if shortcut {
-			r.Violation("transfer-shortcut:exceeds-allowance", fmt.Sprintf("plain transfer: estimate %d (params.TxGas) exceeds the gas cap %d", g, gasCap), witness)
-		} else {
-			r.Violation("exceeds-gas-cap", fmt.Sprintf("estimate %d exceeds the gas cap %d", g, gasCap), witness)
-		}
-	}
-	if balanceAllow != nil && balanceAllow.IsUint64() && g > balanceAllow.Uint64() {
-		r.Violation("exceeds-funds", fmt.Sprintf("estimate %d exceeds what the balance affords at the fee cap: %d", g, balanceAllow.Uint64()), witness)
-	}
-	if fork == execenv.Osaka && g > params.MaxTxGas {
-		r.Violation("exceeds-max-tx-gas", fmt.Sprintf("estimate %d exceeds params.MaxTxGas", g), witness)
-	}
-	if lim := map[bool]uint64{true: call.GasLimit, false: e.header.GasLimit}[call.GasLimit >= params.TxGas]; g > lim {
-		r.Violation("exceeds-gas-limit", fmt.Sprintf("estimate %d exceeds the call/block gas limit %d", g, lim), witness)
-	}
-	// M
-	if errorRatio == 0 && monotone && g > 0 {
-		if ok, _, _ := e.execAt(call, g-1); ok {
-			if shortcut {
-				r.Violation("transfer-shortcut:not-minimal", fmt.Sprintf("ErrorRatio 0, plain transfer under %s: Estimate returned params.TxGas = %d but execution with %d succeeds as well (smallest sufficient gas found by the harness: %d)", fork, g, g-1, need), witness)
-			} else {
-				r.Violation("estimate-not-minimal", fmt.Sprintf("ErrorRatio 0, gas-monotone program: execution with %d (estimate - 1) succeeds as well", g-1), witness)
-			}
-		}
-		r.Count("minimality_checked", 1)
-	}
 	// evidence
-	if capBy != "block" {
+	if v.capBy != "block" {
 		r.Count("cap_limited", 1)
 	}
-	if capBy == "balance" || balanceTight {
+	if v.capBy == "balance" || balanceTight {
 		r.Count("balance_limited", 1)
 	}
-	if ok && res != nil {
-		if res.UsedGas*10 < g*9 && res.MaxUsedGas > res.UsedGas {
+	if v.okAtG && v.res != nil {
+		if v.res.UsedGas*10 < v.g*9 && v.res.MaxUsedGas > v.res.UsedGas {
 			r.Count("refund_heavy", 1)
 			sig += "/refund"
 		}
 		if fork >= execenv.Prague {
-			if floor, _ := core.FloorDataGas(chain.Rules(e.header), from, to, value, data, call.AccessList); floor == g {
+			if floor, _ := core.FloorDataGas(chain.Rules(e.header), from, to, value, data, call.AccessList); floor == v.g {
 				r.Count("floor_dominated", 1)
 				sig += "/floor"
 			}
